@@ -35,6 +35,76 @@ CLAIMED: dict[str, tuple[str, str, str, str]] = {
         TB + "lark LALR engine and Python re trusted (recognisers tied by the parse stream); reference = packaging 26.3 with the token reading of in/not in and set-valued extras stated in the property; two known findings (whitespace in string literals; two-component tokens in python_full_version lists).",
         "DESIGN.md §4 C06",
     ),
+    "C07": (
+        "Lean 4 proof of the white-box simplifier model (mutual fuel recursion with explicit detect_recursion stack) relative to two leaf facts + structural differential correspondence (model vs real intersect/union/invert) + truth oracle on environment grids",
+        "Machine-checked: intersect/union/invert, intersection()/union(), MultiMarker.of/MarkerUnion.of incl. the `while old != new` fix-point loop, "
+        "intersect_simplify/union_simplify, cnf/dnf and the RecursionError fallbacks are truth-preserving for EVERY fuel, stack, operand and "
+        "environment, relative to two leaf facts (marker equality => equal truth; a successful _merge_single_markers is the exact "
+        "conjunction/disjunction). These facts are proved on the string fragment from C16's exactness; they remain named hypotheses for "
+        "version-like variables, the python_version/python_full_version pairing, extra, and leaf inversion. The universal statement is proved "
+        "FALSE on the known finding (`not in` united with `not in` -> Any). Results are proved printable and re-readable at tree level. The model "
+        "mirrors markers.py branch by branch and agrees structurally (tree, text, flags, truth vectors, error class) with the real code on "
+        "every generated pair, incl. the complete python_version x python_version operator/adjacent-value universe.",
+        TB + "Partial as stated; functools caches cleared per case (C20 owns cache transparency); 4 s per-case limit; one known finding.",
+        "DESIGN.md §4 C07",
+    ),
+    "C10": (
+        "Lean 4 proof over models of the PEP 508 requirement recogniser, dependency classes and a restricted git-URL grammar + differential correspondence (model vs code) + round-trip oracle with the reference parser",
+        "Machine-checked for all inputs: name normalisation idempotent, extras stable (sorted, duplicate-free, canonical), spelling/quote/"
+        "leading-blank insensitivity of the recogniser, the git-URL path and suffix inverse on the modelled grammar, and the registry dispatch "
+        "of create_from_pep_508 rebuilding name, extras, kind and source from the recogniser's tokens. The recogniser's result on printed text "
+        "and the constraint/marker round trips (C15/C13) are hypotheses of `dep_roundtrip_partial`; the whole-URL inverse and between-token "
+        "whitespace are tied by correspondence (every run: parse dumps, printed texts, re-parse, reference acceptance, probe versions and "
+        "environments on ~5k generated dependencies). Counterexample theorems show where the code itself breaks the statement.",
+        TB + "Partial: urllib, the git-URL regex cascade beyond the restricted grammar and file-system probes are outside the model (`unmodelled`, counted). Four known findings; three defects fixed in /repo.",
+        "DESIGN.md §4 C10",
+    ),
+    "C11": (
+        "Lean 4 theorems over the white-box conversion model (create_nested_marker, normalize_python_version_markers, get_python_constraint_from_marker) against the PEP 508 reference semantics + structural differential correspondence + oracle on an interpreter grid",
+        "Machine-checked for all X, Y, Z : Nat: the create_nested_marker text evaluated by the reference equals allows(X.Y.Z) for ranges, "
+        "precision-3 versions, unions and the universal range (inclusive/exclusive x precision 1/2/3 x min/max incl. the .0 padding); the listed "
+        "operators land in that domain; normalize_python_version_markers is exact per (op, value) pair for all seven comparison operators; "
+        "get_python_constraint_from_marker is exact for single python items, an upper bound for whole markers and exact on python-only markers "
+        "with a DNF of python items (whole-marker theorems are `_partial` with named hypotheses: leaf agreement, multi-clause parser). Every run "
+        "compares model vs code on texts and constraints and evaluates ranges/markers on every minor 2.6-4.1 x patch levels by poetry-core "
+        "and by the reference, incl. the complete python_version pair universe.",
+        TB + "Outside the formalised reference: wildcard ranges (dev-release bounds), in/not in normalisation, one-component literals (counterexample theorem). Known finding single-version-precision-lt-3 as counterexample theorem.",
+        "DESIGN.md §4 C11",
+    ),
+    "C13": (
+        "Lean 4 proof: unconditional CNF/DNF shape theorems, meaning preservation relative to C07's leaf facts, tree-level print/re-read theorem + structural differential correspondence + re-parse by poetry-core and by the reference parser",
+        "Machine-checked, unconditional (every fuel, stack, input): cnf/dnf results have the promised shape; `_merge_single_markers` yields "
+        "Any/Empty/leaf. cnf/dnf preserve meaning relative to C07's leaf facts. `__str__` is proved to be the text of a grammar tree that "
+        "`_compact_markers` reads back with the same meaning (parenthesisation vs precedence); token-level parse round trip for all trees; "
+        "agreement with Spec.Pep508 through C06's coherence predicates; normal forms and intersect/union results are printable. The "
+        "character-level lexer round trip is a stated def, covered by the correspondence: every result text is re-parsed by poetry-core and "
+        "by packaging and re-evaluated on the environment sample.",
+        TB + "Partial as stated; caches cleared per case; 4 s per-case limit.",
+        "DESIGN.md §4 C13",
+    ),
+    "C17": (
+        "Lean 4 theorems by structural induction over only/exclude/reduce_by_python_constraint, composed with C07's proved simplifier soundness + structural differential correspondence + truth oracle",
+        "Machine-checked: `only` only weakens (conjunctions and disjunctions) and keeps the leaf invariant; `exclude` on a conjunction of "
+        "leaves is exactly the conjunction of the others; without_extras = exclude(\"extra\") (rfl); reduction by a Python range is exact "
+        "including the MarkerUnion shortcut. Relative to the leaf facts of C07 (LeafSpec); `only_mentions` needs `OfVars` (the simplifier "
+        "introduces no variable), `reduce_exact` needs `ReduceCtx` (C11 gpc exactness, C12 allows_all/allows_any at the probe) — named "
+        "hypotheses. Every run compares model vs code on only/exclude/without_extras/reduce results and evaluates the three statements on "
+        "the environment sample.",
+        TB + "Partial as stated.",
+        "DESIGN.md §4 C17",
+    ),
+    "C19": (
+        "Lean 4 proof of error classification and printability over executable models of the parsers + differential token-level fuzz against the real code (six grammars + Factory.validate)",
+        "Machine-checked for every string: Version.parse, the string/extra constraint parsers fail only with the documented ValueError; the marker "
+        "grammar recogniser fails only with the syntax error; single-clause version constraints fail only with ValueError; raw marker trees and "
+        "all ranges print (no IndexError in wildcard printing). Multi-clause version constraints and marker leaves are proved modulo ONE named "
+        "hypothesis (totality of intersect / VersionUnion.of on parser-built operands), parse_marker modulo the simplifier. Front ends (re, lark) "
+        "are tied to the models by correspondence (accept/reject, error class, normal text on ~43k fuzz strings per quick run; 2M in thorough). "
+        "Requirements, dependencies and Factory.validate are covered by the real-code oracle (ok / documented error / other / timeout, "
+        "printability, re-parse; witnesses minimised by delta debugging).",
+        TB + "Partial as stated. Eight defects fixed in /repo; super-linear cost classes (git URL regexes, algebra on 10^4-char inputs) and one schema gap are known findings.",
+        "DESIGN.md §4 C19",
+    ),
     "C08": (
         "Lean 4 theorems about description-level determinism (sorted iteration over a total order, metadata scrubbing, SOURCE_DATE_EPOCH semantics incl. the 1980 boundary) + rebuilds of perturbed trees compared bytes-vs-bytes and real-description-vs-model",
         "Machine-checked for all trees, permutations and metadata: wheel and sdist descriptions are invariant under listing order, mtimes, owners, "
@@ -179,7 +249,7 @@ def main() -> None:
             na.append({"property_id": pid, "reason": NOT_YET.get(pid, "not claimed yet: the Lean model and correspondence for this property are not built in this revision (see DESIGN.md §9 status); no other technique is substituted")})
     manifest = {
         "version": 1,
-        "setup_cmd": "cd lean && /venv/bin/python ../tools/extract.py && lake build PoetryVerif driver",
+        "setup_cmd": "cd lean && /venv/bin/python ../tools/extract.py && lake build driver " + " ".join(f"PoetryVerif.Props.{p}" for p in sorted(CLAIMED)),
         "hooks": {
             "guard": "POETRY_CORE_VERIF",
             "enable": "no source hooks: the harness wraps builder methods in-process; checks set POETRY_CORE_VERIF=1 for uniformity",
